@@ -13,7 +13,7 @@ import json
 
 from . import bytecode, fp, prng, sched, workload
 from .engine_a import FILENAMES, compile_op, zoo_expr
-from .world import World, api_call, norm_loc, snap
+from .world import World, api_call, norm_loc, pristine_call, snap
 
 
 class World06(World):
@@ -43,6 +43,17 @@ class World06(World):
         r = self.add_slot(op, kind, value, arg.lineage, arg.route + [name], snapshot=self._result_snap, parent=arg)
         r.normalized = name == "normalize"
         if name == "normalize":
+            if op.get("ref"):
+                # N3: a canonical form cannot depend on what else this process normalized before:
+                # a pristine copy of the library must produce the same normal form for an equal argument
+                ref = pristine_call("normalize", arg.value)
+                self.count("pristine_reference_checked")
+                same = ref[0] == "ok" and fp.data_fp(ref[1]) == r.snap
+                self.event("pristine", same)
+                if not same:
+                    loc = (fp.diff_path(fp.data_fp(ref[1]), r.snap) or "?") if ref[0] == "ok" else "pristine-raises:" + ref[1]
+                    self.violate("N3-normal-form-depends-on-process-history", "normalize", norm_loc(loc), {"route": r.route})
+                    return r
             self.check_canonical(r, arg)
         return r
 
@@ -160,11 +171,48 @@ def swarm_c06(rng, tier):
     }
 
 
+DECOY_WRAPS = ["(%s, 2)", "(%s,)", "((%s, 1), 0)", "(0, %s, None)", "%s"]
+DECOY_TEMPLATES = ["x = %s\n", "def f(a):\n    return (a, %s)\n", "def f(a=%s):\n    'doc'\n    return [a for _ in %s]\n", "t = [%s, 'z']\nu = %s\n"]
+
+
+def decoy_ops(rng, member_src):
+    """A program of ANOTHER lineage holding a confusable look-alike of the main lineage's constant: decoding and
+    normalizing it between the main lineage's trips is harmless for a pure normalize, and primes any cache."""
+    tmpl = rng.choice(DECOY_TEMPLATES)
+    return {"op": "compile", "prog": {"kind": "decoy", "name": "decoy", "src": tmpl.replace("%s", member_src)}, "filename": "<decoy>", "mode": "exec", "optimize": 0}
+
+
+def run_decoy(w, rng, cop):
+    c = w.execute(dict(cop), rng)
+    if c is None:
+        return
+    d = w.execute({"op": "from_code", "in": [c.id]}, rng)
+    if d is None or w.stop:
+        return
+    w.execute({"op": "normalize", "in": [d.id], "ref": rng.chance(0.3)}, rng)
+    w.count("fault_decoy_lineage_interleaved")
+    w.faults_fired += 1
+
+
 def run_c06(seed, tree, tier, known):
     rng = prng.PRNG(seed)
     cfg = swarm_c06(rng, tier)
     w = World06(tree, known, tier)
-    s = w.execute(compile_op(rng, tree, tier, cfg["mix"]), rng)
+    decoys = []
+    if rng.chance(0.4):
+        fam = rng.choice(workload.CONFUSABLE_FAMILIES)
+        wrap = rng.choice(DECOY_WRAPS)
+        members = rng.sample(fam, min(len(fam), 3))
+        main_src = rng.choice(DECOY_TEMPLATES).replace("%s", wrap % members[0])
+        decoys = [decoy_ops(rng, wrap % m) for m in members[1:]]
+        first = {"op": "compile", "prog": {"kind": "twin", "name": "twin-main", "src": main_src}, "filename": "<sim>", "mode": "exec", "optimize": 0}
+        if decoys and rng.chance(0.5):
+            run_decoy(w, rng, decoys[0])  # the look-alike is normalized BEFORE the main lineage exists
+    else:
+        first = compile_op(rng, tree, tier, cfg["mix"])
+    if w.stop:
+        return w, cfg
+    s = w.execute(first, rng)
     if s is None:
         s = w.execute({"op": "compile", "prog": {"kind": "tmpl", "name": "fallback", "src": "def f(a, b=2):\n    c = a in {1, 'x'}\n    return [c for _ in b]\n"}}, rng)
     n = s.meta.get("n_code_objects", 1)
@@ -176,7 +224,7 @@ def run_c06(seed, tree, tier, known):
     if d0 is None:
         return w, cfg
     d0.lineage = lineage
-    state = w.execute({"op": "normalize", "in": [d0.id]}, rng)
+    state = w.execute({"op": "normalize", "in": [d0.id], "ref": rng.chance(0.5)}, rng)
     if state is None or w.stop:
         return w, cfg
     # a perturbed variant of c0 itself must normalize to the same thing
@@ -191,9 +239,13 @@ def run_c06(seed, tree, tier, known):
     while t < cfg["trips"] and not w.stop and state is not None:
         t += 1
         w.trips += 1
+        if decoys and rng.chance(0.4):
+            run_decoy(w, rng, rng.choice(decoys))
+            if w.stop:
+                break
         k = rng.weighted([("json", cfg["json_w"]), ("code", cfg["code_w"]), ("norm", cfg["norm_w"])])
         if k == "norm":
-            nxt = w.execute({"op": "normalize", "in": [state.id]}, rng)
+            nxt = w.execute({"op": "normalize", "in": [state.id], "ref": rng.chance(0.15)}, rng)
         elif k == "code":
             c = w.execute({"op": "to_code", "in": [state.id]}, rng)
             if c is None:
@@ -204,7 +256,7 @@ def run_c06(seed, tree, tier, known):
             d = w.execute({"op": "from_code", "in": [c.id]}, rng)
             if d is None:
                 break
-            nxt = w.execute({"op": "normalize", "in": [d.id]}, rng)
+            nxt = w.execute({"op": "normalize", "in": [d.id], "ref": rng.chance(0.15)}, rng)
         else:
             j = w.execute({"op": "to_json_data", "in": [state.id]}, rng)
             if j is None:
@@ -226,7 +278,7 @@ def run_c06(seed, tree, tier, known):
             break
         state = nxt
         # keep the pool small: drop everything but the lineage anchors and the state
-        keep = set([s.id, state.id]) | set(x.id for x in w.N0.values())
+        keep = set([s.id, state.id]) | set(x.id for x in w.N0.values() if x.lineage == lineage)
         for i in sorted(w.slots):
             if i not in keep:
                 w.execute({"op": "evict", "in": [i]}, rng)
